@@ -12,11 +12,11 @@ use owning_iovec::{ConsumingIovec, OwningIovec};
 use std::io::Read;
 use std::num::NonZeroUsize;
 
-enum Enc {
+pub(crate) enum Enc {
     Prod(hcobs::Encoder<'static>),
     Param(hcobs::verif_hooks::ParamEncoder<'static>),
 }
-enum Dec {
+pub(crate) enum Dec {
     Prod(hcobs::Decoder<'static>),
     Param(hcobs::verif_hooks::ParamDecoder<'static>),
 }
@@ -26,7 +26,7 @@ fn leak(b: Vec<u8>) -> &'static [u8] {
 }
 
 impl Enc {
-    fn consumer(&mut self) -> ConsumingIovec<'_> {
+    pub(crate) fn consumer(&mut self) -> ConsumingIovec<'_> {
         match self {
             Enc::Prod(e) => e.consumer(),
             Enc::Param(e) => e.consumer(),
@@ -94,7 +94,7 @@ impl<'a> Read for Halves<'a> {
 }
 
 impl Dec {
-    fn consumer(&mut self) -> ConsumingIovec<'_> {
+    pub(crate) fn consumer(&mut self) -> ConsumingIovec<'_> {
         match self {
             Dec::Prod(e) => e.consumer(),
             Dec::Param(e) => e.consumer(),
@@ -143,7 +143,7 @@ impl Dec {
     }
 }
 
-fn stable_bytes(c: &ConsumingIovec<'_>) -> Vec<u8> {
+pub(crate) fn stable_bytes(c: &ConsumingIovec<'_>) -> Vec<u8> {
     let mut v = Vec::new();
     for s in c.stable_prefix() {
         v.extend_from_slice(s);
@@ -152,7 +152,7 @@ fn stable_bytes(c: &ConsumingIovec<'_>) -> Vec<u8> {
 }
 
 /// Applies one drain op; returns the bytes removed.
-fn drain(c: &mut ConsumingIovec<'_>, op: &str, k: usize) -> Vec<u8> {
+pub(crate) fn drain(c: &mut ConsumingIovec<'_>, op: &str, k: usize) -> Vec<u8> {
     let before = stable_bytes(c);
     match op {
         "ds" => {
